@@ -43,21 +43,28 @@ theorem fp_total (tua : RB) (others : List RB) (B rem limit : Nat)
     (hstep : ∀ A, tua.need A < tua.need (A + 1) → tua.need A + rem < tua.need (A + 1)) :
     fpCore tua others B rem limit ≠ .panic := fpCore_no_panic tua others B rem limit hwf hex ho hstep
 
-/-- the four EDF analyses never panic when the task under analysis releases something
-(or when there is no run-to-completion remainder) -/
+/-- the four EDF analyses never panic.  (Until the `fix:` commit for finding F9 this needed
+"the task under analysis releases something", `0 < tua.need 1`, and `hstep`, "`rem` is below
+every own step", to exclude the underflow of `self_interference - rem_cost`.) -/
 theorem edf_total (tua : RB) (D : Nat) (others : List EdfTask) (rem : Nat) (wb : Bool)
-    (limit : Nat) (hwf : tua.ArrWF) (hex : tua.Exact) (ho : EdfOthersOK others)
-    (hstep : ∀ A, tua.need A < tua.need (A + 1) → tua.need A + rem < tua.need (A + 1))
-    (hpos : 0 < tua.need 1) :
+    (limit : Nat) (hwf : tua.ArrWF) (hex : tua.Exact) (ho : EdfOthersOK others) :
     edfCore tua D others rem wb limit ≠ .panic :=
-  edfCore_no_panic' tua D others rem wb limit hwf hex ho hpos hstep
+  edfCore_no_panic' tua D others rem wb limit hwf hex ho
 
-/-- finding F9: without "the task under analysis releases something" the NP/LP EDF analyses
-DO panic (and the release build returns something else) -/
-theorem counterexample_F9 :
-    edfNonpreemptive .never 3 5 [{ rb := .rbf (.periodic 4) (.scalar 1), D := 5, seg := 1 }] 50 = .panic := by
-  have h := edfCore_no_panic_counterexample.2.2.2.2
-  simpa [edfNonpreemptive] using h
+/-- finding F9 (repaired): without "the task under analysis releases something" the NP/LP EDF
+analyses DID panic in a debug build (`self_interference - rem_cost` underflowed; the release
+build returned something else).  The `fix:` commit replaced the subtraction by
+`self_interference.saturating_sub(rem_cost)`; the former witness now yields `Ok(3)` in both
+build profiles, in particular it is not a panic any more. -/
+theorem never_arriving_task_total :
+    edfNonpreemptive .never 3 5 [{ rb := .rbf (.periodic 4) (.scalar 1), D := 5, seg := 1 }] 50 ≠ .panic := by
+  have h := edfCore_never_arriving_tua_total
+  have e : edfNonpreemptive .never 3 5
+      [{ rb := .rbf (.periodic 4) (.scalar 1), D := 5, seg := 1 }] 50 = .ok 3 := by
+    simpa [edfNonpreemptive] using h
+  rw [e]
+  intro hc
+  cases hc
 
 /-- the request-bound queries never fail a guard on well-formed models -/
 theorem demand_guards (r : RB) (hwf : r.WF) (d : Nat) :
